@@ -160,7 +160,11 @@ func oracleC07(l *harness.Live) (c07Info, *harness.Failure) {
 
 func TestC07Rapid(t *testing.T) {
 	runRapid(t, uC07, func(rt *rapid.T) {
-		doc := xgen.Doc(rt, xgen.CmpDoc())
+		o := xgen.CmpDoc()
+		if rapid.IntRange(0, 9).Draw(rt, "widedoc") == 0 {
+			o.WideFan = 12 // node-sets of dozens of nodes
+		}
+		doc := xgen.Doc(rt, o)
 		ctx := xgen.Context(rt, doc, 5)
 		g := xgen.NewG(rt, doc)
 		e, sc := g.BoolExpr(ctx, 2)
